@@ -761,6 +761,59 @@ theorem filter_exact (cfg : LineCfg) (hs : Sane cfg) (by_ : SortBy) (src src' : 
   simp only [Option.map_some]
   rw [filter_ssort (leItem by_) (leItem_total by_) (leItem_trans by_)]
 
+theorem noqaFilter_subset (cfg : LineCfg) (src : Str → Str) (amend : Diag → Bool) (items kept : List Item)
+    (h : noqaFilter cfg src amend items = some kept) : ∀ it ∈ kept, it ∈ items := by
+  induction items generalizing kept with
+  | nil => simp [noqaFilter] at h; subst h; simp
+  | cons x rest ih =>
+    unfold noqaFilter at h
+    cases hx : shouldIgnore cfg src amend x with
+    | none => simp [hx] at h
+    | some ig =>
+      cases hr : noqaFilter cfg src amend rest with
+      | none => simp [hx, hr] at h
+      | some r =>
+        simp only [hx, hr, Option.some.injEq] at h
+        subst h
+        intro it hit
+        cases ig
+        · simp only [Bool.false_eq_true, ↓reduceIte] at hit
+          rcases List.mem_cons.mp hit with rfl | hit
+          · simp
+          · exact List.mem_cons_of_mem _ (ih r hr it hit)
+        · simp only [↓reduceIte] at hit
+          exact List.mem_cons_of_mem _ (ih r hr it hit)
+
+/-- **The verdict on a diagnostic depends on its own reported line and nothing else**: two versions of the files
+    that show the same text on line `d.line` of `d.file` (whatever differs elsewhere — the last line of the
+    diagnosed node, the lines of its body, continuation lines, neighbours) give the same verdict. The model has no
+    access to `line_end`/`column_end` at all: `Diag` does not carry them. -/
+theorem verdict_depends_on_own_line_only (cfg : LineCfg) (src src₂ : Str → Str) (amend : Diag → Bool) (d : Diag)
+    (h : pyIndex (getSourceLines cfg (src d.file)) (d.line - 1) = pyIndex (getSourceLines cfg (src₂ d.file)) (d.line - 1)) :
+    shouldIgnoreDiag cfg src amend d = shouldIgnoreDiag cfg src₂ amend d := by
+  unfold shouldIgnoreDiag
+  rw [h]
+
+/-- **Comments on lines that carry no diagnostic change nothing**: if none of the reported lines gets a comment
+    (the comments may sit on the last line of a diagnosed multi-line statement or expression, inside its body,
+    on continuation lines or next to it, and may be bare or name the very codes reported nearby), the report
+    is identical. -/
+theorem unreported_lines_free (cfg : LineCfg) (hs : Sane cfg) (by_ : SortBy) (src src' : Str → Str)
+    (S : Str → Nat → Annot) (amend : Diag → Bool) (h : Annotated cfg src src' S) (items : List Item)
+    (hr : InRange src items) (hno : ∀ d, Item.diag d ∈ items → S d.file d.line.toNat = .none) :
+    runReport cfg by_ src' amend items = runReport cfg by_ src amend items := by
+  rw [filter_exact cfg hs by_ src src' S amend h items hr]
+  obtain ⟨kept, hk, _⟩ := noqaFilter_annotated cfg hs src src' S amend h items hr
+  unfold runReport
+  rw [hk]
+  simp only [Option.map_some, Option.some.injEq]
+  apply List.filter_eq_self.mpr
+  intro it hit
+  have hmem : it ∈ items := noqaFilter_subset cfg src amend items kept hk it ((mem_ssort _ it kept).mp hit)
+  cases it with
+  | text s => rfl
+  | diag d => simp [suppressedBy, hno d hmem, Annot.suppresses]
+
 /-- the full statement: the metamorphic law for all file contents -/
 def FilterExactAlways (cfg : LineCfg) : Prop :=
   ∀ (by_ : SortBy) (src src' : Str → Str) (S : Str → Nat → Annot) (amend : Diag → Bool) (items : List Item),
@@ -941,6 +994,13 @@ example : InRange (fun _ => okBefore) okItems := by
 example : runReport pyCfg .filename (fun _ => okBefore) (fun _ => false) [okDiag 9 0 "FURB" 123] = none := by decide
 /-- line 0 wraps around to the last line (Python's negative indexing) -/
 example : pyIndex (getSourceLines pyCfg okBefore) (0 - 1) = some "z = '日本語'".toList := by decide
+
+/-- a diagnosed `try` statement (reported at line 1, ending at line 4): `# noqa` on its last line, in its body and
+    on the `except` line changes nothing; on line 1 it suppresses -/
+example : runReport nlCfg .filename (fun _ => "try:\n    f()  # noqa: FURB107\nexcept E:  # noqa\n    pass  # noqa\n".toList)
+    (fun _ => false) [okDiag 1 0 "FURB" 107] = some [okDiag 1 0 "FURB" 107] := by decide
+example : runReport nlCfg .filename (fun _ => "try:  # noqa: FURB107\n    f()\nexcept E:\n    pass\n".toList)
+    (fun _ => false) [okDiag 1 0 "FURB" 107] = some [] := by decide
 
 -- guards of `noqa_bare` / `noqa_codes` on concrete values
 example : ¬ HasTag "s = \"it's\"  # why".toList := by rw [hasTag_iff]; decide
